@@ -537,6 +537,10 @@ fn zombie_leader_lane() -> Result<(usize, usize), String> {
     }
     real.push(format!("other maps -> {}", errno_of_open(&format!("/proc/{}/maps", other))));
     real.push(format!("other auxv -> {}", errno_of_open(&format!("/proc/{}/auxv", other))));
+    let some = |s: String| if s == "0 entries" || s.starts_with("errno") { s } else { "some entries".to_string() };
+    real.push(format!("leader fd dir -> {}", some(dir_count(&format!("/proc/{}/fd", pid)))));
+    real.push(format!("other fd dir -> {}", some(dir_count(&format!("/proc/{}/fd", other)))));
+    real.push(format!("other fd dir through task -> {}", some(dir_count(&format!("/proc/{}/task/{}/fd", pid, other)))));
     let attach = |t: i32| -> String {
         let r = unsafe { libc::syscall(libc::SYS_ptrace, 16 as c_long, t, 0usize, 0usize) };
         if r < 0 {
@@ -587,6 +591,30 @@ fn zombie_leader_lane() -> Result<(usize, usize), String> {
     model.push(format!("other maps -> {}", r));
     let r = probe(&mut sim.k, format!("/proc/{}/auxv", spid + 1));
     model.push(format!("other auxv -> {}", r));
+    sim.k.world.fds = vec![FdSpec { fd: 0, target: B::s("/dev/null"), mode: 0o020666, stat_fails: false, link_fails: false }];
+    let count = |k: &mut Kernel, path: String| -> String {
+        match k.sys_opendir(path.as_bytes()) {
+            Err(e) => format!("errno {}", e),
+            Ok(d) => {
+                let key = 0x7778usize;
+                k.dirs.insert(key, d);
+                let mut n = 0;
+                while let Ok(Some(name)) = k.sys_readdir(key) {
+                    if name != b"." && name != b".." {
+                        n += 1;
+                    }
+                }
+                k.sys_closedir(key);
+                if n == 0 { "0 entries".to_string() } else { "some entries".to_string() }
+            }
+        }
+    };
+    let r = count(&mut sim.k, format!("/proc/{}/fd", spid));
+    model.push(format!("leader fd dir -> {}", r));
+    let r = count(&mut sim.k, format!("/proc/{}/fd", spid + 1));
+    model.push(format!("other fd dir -> {}", r));
+    let r = count(&mut sim.k, format!("/proc/{}/task/{}/fd", spid, spid + 1));
+    model.push(format!("other fd dir through task -> {}", r));
     model.push(format!("attach leader -> {}", r2s(sim.k.sys_ptrace_attach(spid))));
     let a = sim.k.sys_ptrace_attach(spid + 1);
     if a.is_ok() {
